@@ -101,7 +101,7 @@ func genPatient(o *c.Out) {
 		k := DispatchCase{Attempts: a, Cooldown: 0, Multiplier: 0, Ranges: [][2]int{{429, 429}, {500, 599}},
 			Remedy: "fixed", EarlyStatus: 503, Allowed: 1}
 		for j := 0; j < a+3; j++ {
-			k.Events = append(k.Events, DispEv{Seq: 1, New: j == 0, AskEarly: true, ProvStatus: 500})
+			k.Events = append(k.Events, txn(j, 1, j == 0, false, true, 500))
 		}
 		o.Count("dispatch:patient")
 		runDispatch(o, k)
